@@ -58,7 +58,8 @@ func init() {
 		Props: []string{"C17"},
 		Min:   2,
 		Doc: "nextChunkToSend reports 'no chunk' only while the verification is pending or when no re-send is pending: every `return _, _, false` is reached through verifyPending == true or resendPending == false " +
-			"(tested, or just cleared by the hand-out) - a re-send that is decided after the schedule ran out (late resume report) would otherwise never be handed to a worker, and end-of-file waits for it",
+			"(tested, or just cleared by the hand-out), or through scheduleDone == true on a tree where a re-send cannot be pending then (scheduleDone is set only where the cursor has reached the chunk count, a re-send is decided only for a chunk at or behind the cursor that the report's bitmap holds, " +
+			"and the cursor moves only where no re-send is pending: since F53 the late-report case is handled by the ordinary schedule) - a re-send that is decided after the schedule ran out (late resume report) would otherwise never be handed to a worker, and end-of-file waits for it",
 		Run: runResendReaches,
 	})
 	Register(&Rule{
@@ -699,6 +700,28 @@ func runResendReaches(c *Ctx) {
 			if fieldNamed(e, "verifyPending") {
 				return "verify-pending", true, true
 			}
+			if fieldNamed(e, "scheduleDone") {
+				return "schedule-done", true, true
+			}
+			// `verifyPending || scheduleDone`: one of the two holds on the true edge
+			if be, ok := ast.Unparen(e).(*ast.BinaryExpr); ok && be.Op == token.LOR {
+				all := true
+				var walk func(x ast.Expr)
+				walk = func(x ast.Expr) {
+					if b2, ok := ast.Unparen(x).(*ast.BinaryExpr); ok && b2.Op == token.LOR {
+						walk(b2.X)
+						walk(b2.Y)
+						return
+					}
+					if !fieldNamed(x, "verifyPending") && !fieldNamed(x, "scheduleDone") {
+						all = false
+					}
+				}
+				walk(be)
+				if all {
+					return "pending-or-done", true, true
+				}
+			}
 			return "", false, false
 		}},
 		{Stmt: func(g *FuncInfo, n ast.Node) (string, bool) {
@@ -718,7 +741,10 @@ func runResendReaches(c *Ctx) {
 				}
 			}
 			if fieldNamed(as.Lhs[0], "verifyPending") {
-				return []string{"verify-pending"}
+				return []string{"verify-pending", "pending-or-done"}
+			}
+			if fieldNamed(as.Lhs[0], "scheduleDone") {
+				return []string{"schedule-done", "pending-or-done"}
 			}
 		}
 		return nil
@@ -741,7 +767,12 @@ func runResendReaches(c *Ctx) {
 			continue
 		}
 		ref := NodeRef{b, len(b.Nodes) - 1}
-		c.Check(spec.Passed(f, ref, "no-resend") || spec.Passed(f, ref, "verify-pending"), key, ret.Pos(), "'no chunk' only while the verdict is pending or with no re-send pending",
+		good := spec.Passed(f, ref, "no-resend") || spec.Passed(f, ref, "verify-pending")
+		if !good && (spec.Passed(f, ref, "schedule-done") || spec.Passed(f, ref, "pending-or-done")) && resendNeverPendingOnceDone(p, f, spec) {
+			// reached with scheduleDone set, and the tree shows that no re-send is pending then
+			good = true
+		}
+		c.Check(good, key, ret.Pos(), "'no chunk' only while the verdict is pending or with no re-send pending",
 			"nextChunkToSend reports 'no chunk' on a path that neither saw resendPending == false nor verifyPending == true: a re-send that was decided when the schedule had already run out (the receiver's report came after the last chunk) "+
 				"is never handed to a worker - the damaged chunk is not sent again and the end-of-file record, which waits for the re-send, is never written")
 	}
@@ -1066,4 +1097,155 @@ func runResolverStat(c *Ctx) {
 	if n == 0 {
 		c.Bad("resolver-stat/none", f.Pos(), "buildPathResolver no longer classifies the selected paths with IsDir()")
 	}
+}
+
+// resendNeverPendingOnceDone: the tree shows that scheduleDone && resendPending is unreachable:
+//   (a) every `scheduleDone = true` is reached only where nextChunk >= totalChunks is known (the true edge of that
+//       comparison or the exit of `for nextChunk < totalChunks`),
+//   (b) every `resendPending = true` sits under a condition that implies `<chunk> >= <state>.nextChunk` and a Get(<chunk>)
+//       on the report's bitmap (a chunk the bitmap holds is below the chunk count),
+//   (c) in nextChunkToSend the cursor is advanced only on paths where resendPending is known false.
+// The cursor is monotone (R-CURSOR-MONOTONE) and all of this happens under the state's mutex (R-LOCKSET).
+func resendNeverPendingOnceDone(p *Program, next *FuncInfo, spec *PassSpec) bool {
+	isField := func(info *types.Info, e ast.Expr, name string) bool {
+		sel, ok := ast.Unparen(e).(*ast.SelectorExpr)
+		if !ok {
+			return false
+		}
+		v, _ := info.Uses[sel.Sel].(*types.Var)
+		return v != nil && v.IsField() && v.Name() == name
+	}
+	okAll, nDone, nResend, nCursor := true, 0, 0, 0
+	for _, f := range p.FuncsIn("internal/transfer") {
+		if f.Body == nil || strings.HasSuffix(p.Fset.Position(f.Pos()).Filename, "_test.go") {
+			continue
+		}
+		info := f.Info()
+		InspectNoLits(f.Body, func(m ast.Node) bool {
+			switch st := m.(type) {
+			case *ast.AssignStmt:
+				if len(st.Lhs) != 1 || len(st.Rhs) != 1 {
+					return true
+				}
+				tv := info.Types[st.Rhs[0]]
+				isTrue := tv.Value != nil && tv.Value.Kind() == constant.Bool && constant.BoolVal(tv.Value)
+				switch {
+				case isField(info, st.Lhs[0], "scheduleDone") && (tv.Value == nil || isTrue):
+					// only the sender's file state
+					if t := info.TypeOf(ast.Unparen(st.Lhs[0]).(*ast.SelectorExpr).X); t == nil || !strings.HasSuffix(t.String(), "sendFileState") {
+						return true
+					}
+					nDone++
+					if !cursorAtEnd(f, info, st, isField) {
+						okAll = false
+					}
+				case isField(info, st.Lhs[0], "resendPending") && (tv.Value == nil || isTrue):
+					nResend++
+					behind, held := false, false
+					for _, is := range enclosingIfs(f.Body, st) {
+						for _, a := range Implied(is.Cond, true) {
+							if !a.Val {
+								continue
+							}
+							if be, ok := ast.Unparen(a.E).(*ast.BinaryExpr); ok {
+								if (be.Op == token.GEQ && isField(info, be.Y, "nextChunk")) || (be.Op == token.LEQ && isField(info, be.X, "nextChunk")) {
+									behind = true
+								}
+							}
+							if call, ok := ast.Unparen(a.E).(*ast.CallExpr); ok {
+								if sel, ok := ast.Unparen(call.Fun).(*ast.SelectorExpr); ok && sel.Sel.Name == "Get" {
+									held = true
+								}
+							}
+						}
+					}
+					if !behind || !held {
+						okAll = false
+					}
+				}
+			}
+			return true
+		})
+	}
+	// (c)
+	{
+		info := next.Info()
+		cfg := next.CFG()
+		cfg.EachNode(func(r NodeRef) {
+			moved := false
+			switch st := r.Node().(type) {
+			case *ast.IncDecStmt:
+				moved = isField(info, st.X, "nextChunk")
+			case *ast.AssignStmt:
+				for _, l := range st.Lhs {
+					if isField(info, l, "nextChunk") {
+						moved = true
+					}
+				}
+			}
+			if moved {
+				nCursor++
+				if !spec.Passed(next, r, "no-resend") {
+					okAll = false
+				}
+			}
+		})
+	}
+	return okAll && nDone > 0 && nResend > 0 && nCursor > 0
+}
+
+// cursorAtEnd: st is reached only with nextChunk >= totalChunks known: inside an if whose condition implies it, or
+// behind a `for nextChunk < totalChunks` loop of the same block with no break in it.
+func cursorAtEnd(f *FuncInfo, info *types.Info, st ast.Stmt, isField func(*types.Info, ast.Expr, string) bool) bool {
+	for _, is := range enclosingIfs(f.Body, st) {
+		if !(is.Body.Pos() <= st.Pos() && st.End() <= is.Body.End()) {
+			continue
+		}
+		for _, a := range Implied(is.Cond, true) {
+			if be, ok := ast.Unparen(a.E).(*ast.BinaryExpr); ok && a.Val {
+				if (be.Op == token.GEQ && isField(info, be.X, "nextChunk") && isField(info, be.Y, "totalChunks")) ||
+					(be.Op == token.LEQ && isField(info, be.Y, "nextChunk") && isField(info, be.X, "totalChunks")) {
+					return true
+				}
+			}
+		}
+	}
+	// behind the loop
+	res := false
+	ast.Inspect(f.Body, func(m ast.Node) bool {
+		blk, ok := m.(*ast.BlockStmt)
+		if !ok {
+			return true
+		}
+		for i, s := range blk.List {
+			if s != st || i == 0 {
+				continue
+			}
+			fs, ok := blk.List[i-1].(*ast.ForStmt)
+			if !ok || fs.Cond == nil || fs.Init != nil || fs.Post != nil {
+				continue
+			}
+			be, ok := ast.Unparen(fs.Cond).(*ast.BinaryExpr)
+			if !ok || be.Op != token.LSS || !isField(info, be.X, "nextChunk") || !isField(info, be.Y, "totalChunks") {
+				continue
+			}
+			hasBreak := false
+			ast.Inspect(fs.Body, func(k ast.Node) bool {
+				switch b := k.(type) {
+				case *ast.ForStmt, *ast.RangeStmt, *ast.SelectStmt, *ast.SwitchStmt, *ast.FuncLit:
+					return false
+				case *ast.BranchStmt:
+					if b.Tok == token.BREAK || b.Tok == token.GOTO {
+						hasBreak = true
+					}
+				}
+				return true
+			})
+			if !hasBreak {
+				res = true
+			}
+		}
+		return true
+	})
+	return res
 }
